@@ -40,6 +40,11 @@ var yieldFiles = []string{
 	"internal/filecache/file_cache.go",
 }
 
+// optYieldFiles: statement-level yields that are switched on by the one simulation that wants them
+// (verifsimrt.OptYields; C19's concurrent derivations) and are no-ops for every other class, whose
+// schedules therefore do not change.
+var optYieldFiles = []string{"config.go", "fsconfig.go"}
+
 // functions in yieldFiles that are NOT given statement-level yields because
 // they are hot guest-execution or decoding paths irrelevant to lifecycle.
 var skipFuncs = map[string]bool{}
@@ -110,7 +115,7 @@ func main() {
 	}
 	root := os.Args[1]
 	all := map[string]bool{}
-	for _, l := range [][]string{syncFiles, osFiles, yieldFiles, engineFiles} {
+	for _, l := range [][]string{syncFiles, osFiles, yieldFiles, engineFiles, optYieldFiles} {
 		for _, f := range l {
 			all[f] = true
 		}
@@ -191,6 +196,19 @@ func rewrite(rel string, src []byte) ([]byte, error) {
 				needRT = true
 			}
 		}
+	}
+	if contains(optYieldFiles, rel) {
+		yieldFn = "YieldOpt"
+		for _, d := range f.Decls {
+			fd, ok := d.(*ast.FuncDecl)
+			if !ok || fd.Body == nil {
+				continue
+			}
+			if instrumentBlock(fset, rel, fd.Body) {
+				needRT = true
+			}
+		}
+		yieldFn = "Yield"
 	}
 	if contains(engineFiles, rel) {
 		for _, d := range f.Decls {
@@ -306,10 +324,12 @@ func addImport(f *ast.File, name, path string) {
 	f.Imports = append(f.Imports, spec)
 }
 
+var yieldFn = "Yield"
+
 func yieldStmt(fset *token.FileSet, rel string, pos token.Pos) ast.Stmt {
 	site := fmt.Sprintf("%s:%d", strings.TrimPrefix(rel, "internal/"), fset.Position(pos).Line)
 	return &ast.ExprStmt{X: &ast.CallExpr{
-		Fun:  &ast.SelectorExpr{X: ast.NewIdent("verifsimrt"), Sel: ast.NewIdent("Yield")},
+		Fun:  &ast.SelectorExpr{X: ast.NewIdent("verifsimrt"), Sel: ast.NewIdent(yieldFn)},
 		Args: []ast.Expr{&ast.BasicLit{Kind: token.STRING, Value: strconv.Quote(site)}},
 	}}
 }
